@@ -91,6 +91,7 @@ def main(tier):
         times = [0, 30, 37230, 86370, 86399, 43200]
         execs = []
         nrun = 0
+        single = {}
         for with_time in (False, True):
             sp = specs(with_time, rng)
             inputs = []
@@ -129,6 +130,41 @@ def main(tier):
                         execs.append([{"e": "Reset", "x": x, "txt": xin},
                                       {"e": "Round", "cmd": "dround %s%s" % ("-n " if nxt else "", arg), "kind": kind, "v": v, "dir": dr, "next": nxt,
                                        "res": res, "out": got}])
+        # inputs written as ISO week dates, ordinal dates and n-th-weekday dates, results printed as %F (a value held in one of these
+        # notations is converted for printing: whatever the rounding left in it must denote the right day), year ends of every year type,
+        # single specs and the same spec twice with --next (the second step starts from what the first left behind)
+        yends = sorted(set(ch.ldn_of(y, 12, 22) + k for y in range(1995, 2036) for k in range(0, 21)))
+        nsp = [x for x in specs(False, rng) if x[1] in ("wd", "mon") or (x[1] == "dom" and x[2] in (1, 15, 28, 29, 30, 31))]
+        for nota in ("ywd", "yd", "ymcw"):
+            ndays = yends[:: 2 if quick else 1] + days[:: 9 if quick else 2]
+            ninputs = [cc.fmt_row(nota, ch.row(l)) for l in ndays]
+            ninp = "".join(x + "\n" for x in ninputs)
+            for arg, kind, v, dr in (nsp if not quick else [x for x in nsp if x[1] == "wd"] + rng.sample([x for x in nsp if x[1] != "wd"], 8)):
+                for nxt, twice in ((False, False), (True, False), (True, True)):
+                    if twice and kind != "wd":
+                        continue
+                    a1 = ["--", arg] if arg.startswith("-") else [arg]
+                    args = ["-i", cc.INFMT[nota], "-f", "%F"] + (["-n"] if nxt else []) + a1 + (a1[-1:] if twice else [])
+                    rc, lines, err = cc.tool_lines(dround, args, ninp)
+                    nrun += 1
+                    if len(lines) != len(ninputs):
+                        rep.disagree("dround %s input %s%s: %d lines for %d inputs" % (nota, "-n " if nxt else "", kind, len(lines), len(ninputs)), {"arg": arg, "stderr": err[:200]})
+                        continue
+                    for l, xin, got in zip(ndays, ninputs, lines):
+                        x = decomp(ch, ch.fmtF(l), False)
+                        res = decomp(ch, got, False) or {"ldn": 0, "y": 1582, "m": 10, "d": 15, "wd": 5, "sod": 0}
+                        ex = [{"e": "Reset", "x": x, "txt": xin}]
+                        if twice:
+                            # the first of the two steps is what the single --next run printed for this input (validated by its own trace)
+                            mid = decomp(ch, single.get((nota, arg, xin), ""), False)
+                            if mid is None:
+                                continue
+                            ex.append({"e": "Round", "cmd": "dround -n %s (first of two)" % arg, "kind": kind, "v": v, "dir": dr, "next": True, "res": mid, "out": single[(nota, arg, xin)], "nota": nota})
+                        elif nxt:
+                            single[(nota, arg, xin)] = got
+                        ex.append({"e": "Round", "cmd": "dround -i %s -f %%F %s%s%s" % (nota, "-n " if nxt else "", arg, " " + arg if twice else ""), "kind": kind, "v": v, "dir": dr,
+                                   "next": nxt, "res": res, "out": got, "nota": nota})
+                        execs.append(ex)
         # the same instants given as seconds since the epoch (-i %s -f %s): before 1970, around 2^31 and beyond 2^32
         # (epoch values have no fields to set: the tool offers them the co-classes only; the value 0 itself cannot be read, see the C11 finding)
         tsp = [x for x in specs(True, rng) if x[1] in ("coh", "comi", "cos")]      # (/1d leaves an epoch value unchanged: day co-classes are not offered for them)
@@ -190,7 +226,7 @@ def main(tier):
         rep.notes["tool_runs"] = nrun
 
         def key(bad, ex):
-            return "dround %s%s%s dir=%s" % ("epoch input " if bad.get("epoch") else "", "-n " if bad.get("next") else "", bad.get("kind"), bad.get("dir"))
+            return "dround %s%s%s dir=%s" % ("epoch input " if bad.get("epoch") else bad["nota"] + " input " if bad.get("nota") else "", "-n " if bad.get("next") else "", bad.get("kind"), bad.get("dir"))
         cc.validate_and_report(rep, "RoundTrace", "RoundTrace.cfg", execs, key, "dround_run")
         rep.cov["rule"] = ("one trace = one input value and the RNDSPEC(s) applied to it: weekday, month, day-of-month 1..31, hour, minute, "
                            "second values, co-classes /N{h,m,s} for divisors, /1d, /N mo, /N y, both directions, with and without --next; inputs: "
